@@ -44,6 +44,18 @@ CLAIMED = {
         "Real arithmetic; ties excluded as in the property; catastrophic cancellation is a float notion: only searched (it found D20, fixed).",
         "§6 C20",
     ),
+    "C17": (
+        "Lean 4 invariant by induction over operation sequences (Coherent: log-weight and normaliser caches fresh, variances >= current floors) + refinement theorem (likelihood from caches = likelihood of visible parameters; reachable state = freshly built machine) + Exec/Spec bridge; random operation sequences on a real GMMMachine vs the model state machine after every operation",
+        "Proof for all finite sequences of setter calls, floor changes, M-steps (as setter sequences) and clones from any fresh machine. Tie: sequences of <= 12 (quick) / <= 40 (thorough) operations on ML and MAP machines incl. deepcopy, pickle and HDF5 save/load, comparing log_likelihood, weights and variances after every operation.",
+        "Real arithmetic; deepcopy/pickle/HDF5 are modelled as the identity on the state (that they are is what the correspondence checks); MAP M-steps in sequences do not update variances (C05's known finding).",
+        "§6 C17",
+    ),
+    "C18": (
+        "Lean 4 theorems about the model of save / from_hdf5 / load (file = finite map of typed datasets, str stored as bytes, None = absent dataset): round trip identity for well-formed machines, re-save identity, n round trips, MAP needs UBM, load replaces state, statistics round trip and resize, legacy reader equivalence; file contents and loaded fields compared bit-for-bit with the model",
+        "Proof for all well-formed machines (known trainer, MAP holds its UBM, variances >= floors), all settings incl. None, all floor shapes, any number of round trips. Tie: actual HDF5 contents (names, kinds, bits) and every loaded attribute vs the model, path and open-file entry points, load into another shape, legacy fixture.",
+        "'bit-identical' is equality in the model (values are copied); that h5py returns the stored bytes is checked, not proved. Found and fixed D5, D5b, D21.",
+        "§6 C18",
+    ),
 }
 
 NOT_YET = "check not built yet in this round (see DESIGN.md §8 order of work); not claimed"
